@@ -316,7 +316,9 @@ class CircuitSimulator:
         """
         # Initializing the unitary operators.
         if cbits and len(cbits) == self.qc.num_cbits:
-            self.cbits = cbits
+            # Copy: the register is updated in place by measurements and
+            # must not alias the caller's list or the lists of other runs.
+            self.cbits = list(cbits)
         elif self.qc.num_cbits > 0:
             self.cbits = [0] * self.qc.num_cbits
         else:
